@@ -142,6 +142,16 @@ def directed(rng):
             specs.append(node(preds=[3], prio=0, res="t"))
         out.append(dict(n=len(specs), specs=specs, maxc=rng.choice([3, 3, 4]), is_async=rng.random() < 0.3, sel=None, nested=False,
                         script=dict(seed=rng.randrange(1 << 30))))
+    for _ in range(8):
+        # a pooled node that FAILS while the scheduler thread is busy running a main-thread node inline (its completion is a
+        # fact before the scheduler next looks); a dependant of the failing node must never start
+        kind = rng.choice(["t", "t", "a"])
+        specs = [dict(node(prio=5, res=kind), fail=True), node(prio=rng.choice([1, 3]), res="m"),
+                 node(preds=[0], prio=rng.choice([0, 2]), res=rng.choice(["t", "m"]))]
+        if rng.random() < 0.5:
+            specs.append(node(preds=[1], prio=1, res="t"))
+        out.append(dict(n=len(specs), specs=specs, maxc=rng.choice([2, 3]), is_async=rng.random() < 0.3, sel=None, nested=False,
+                        script=dict(seed=rng.randrange(1 << 30))))
     return out
 
 
